@@ -34,6 +34,7 @@ type thCase struct {
 	Regs    int      `json:"registrations"`
 	Changes int      `json:"changes"`
 	Calls   int      `json:"calls"`
+	Raw     int      `json:"raw_changes,omitempty"`
 	Oracle  []string `json:"oracle_fail,omitempty"`
 	Line    string   `json:"-"`
 	// Children() of every looked-up key in returned order (not part of the model's case line; compared across replays)
@@ -378,6 +379,12 @@ func genHistory(r *rng.R, nops int, exhaustiveSmall bool) thCase {
 	}
 
 	for i := 0; i < nops; i++ {
+		if r.Chance(1, 12) {
+			// a raw (undecoded) state change: write-only bookkeeping of its own — nothing the queries answer may change
+			// (it is not part of the case line: the model does not know it happened)
+			tr.SaveRawStateChange(accts[pick(2)], *slots[pick(len(slots))], common.BytesToHash(vals[pick(len(vals))]))
+			cs.Raw++
+		}
 		switch x := r.Intn(100); {
 		case x < 22:
 			regTop()
